@@ -264,8 +264,15 @@ def run(tier, seed, replay=None):
                 d0 = rng.choice(subdirs)
                 keep = sorted(x for x in os.listdir(os.path.join(root, d0)) if os.path.isfile(os.path.join(root, d0, x)))[0]
                 excl = [f"{d0}/*", f"!{d0}/{keep}", "zz_unused", "!zz_other", "yy/*", "!yy/k.py"]
-                with open(os.path.join(root, ".codelimit.yml"), "w") as f:
-                    f.write("exclude:\n" + "".join(f"  - \"{x}\"\n" for x in excl))
+                # ... in the configuration file, or in a .gitignore (with a comment, a blank line and a repeated pattern):
+                # there too the order of the lines is part of their meaning (seeded change C06-24: the lines kept as a set)
+                in_gitignore = t % 2 == 1
+                if in_gitignore:
+                    with open(os.path.join(root, ".gitignore"), "w") as f:
+                        f.write("# generated files\n" + "\n".join(excl[:2]) + "\n\nzz_unused\n" + "\n".join(excl[2:]) + "\n")
+                else:
+                    with open(os.path.join(root, ".codelimit.yml"), "w") as f:
+                        f.write("exclude:\n" + "".join(f"  - \"{x}\"\n" for x in excl))
             reports = []
             for perm in range(3):
                 def shuffled(top, _p=perm):
@@ -282,7 +289,7 @@ def run(tier, seed, replay=None):
                 Scanner.os = OsProxy()
                 try:
                     shutil.rmtree(os.path.join(root, ".codelimit_cache"), ignore_errors=True)
-                    rep, _ = F.run_scan(root, excl)
+                    rep, _ = F.run_scan(root, [] if (excl and in_gitignore) else excl)
                 finally:
                     Scanner.os = orig_os
                 reports.append(rep)
@@ -322,7 +329,7 @@ def run(tier, seed, replay=None):
                     fresh_proc = this
                 elif this != fresh_proc:
                     chk.violation({"tree": t, "excludes": excl, "hashseed": hs},
-                                  f"`codelimit scan` with the exclusions {excl[:2]} in .codelimit.yml gives another report under "
+                                  f"`codelimit scan` with the exclusions {excl[:2]} in {'.gitignore' if in_gitignore else '.codelimit.yml'} gives another report under "
                                   f"PYTHONHASHSEED={hs}: files {sorted(set((this or {'codebase': {'files': {}}})['codebase']['files']) ^ set((fresh_proc or {'codebase': {'files': {}}})['codebase']['files']))}")
                     break
                 chk.evaluations += 1
